@@ -516,5 +516,106 @@ theorem extOpsT_agree (hq : p ^ n ≤ 2 ^ 63) (tab : Bool) :
 
 end Ext
 
+/-! ## 6. expressions over the field operations -/
+
+/-- terms built from registers and the element operations of `ff.Element`
+    (`Zero One MultGenerator Plus Minus Times Neg Inv Pow Trace`) -/
+inductive Expr where
+  | reg (k : Nat)
+  | zero | one | gen
+  | add (a b : Expr) | sub (a b : Expr) | mul (a b : Expr)
+  | neg (a : Expr) | inv (a : Expr) | pow (a : Expr) (k : Nat) | trace (a : Expr)
+
+/-- value of a term in the record `F`; `none` = an `Inv()` of zero occurred (the InputValue error
+    of the code, which every later operation hands on) -/
+def Expr.eval {α : Type} (F : FOps α) (ρ : Nat → α) : Expr → Option α
+  | .reg k => some (ρ k)
+  | .zero => some F.zero
+  | .one => some F.one
+  | .gen => some F.gen
+  | .add a b => (a.eval F ρ).bind fun x => (b.eval F ρ).map fun y => F.add x y
+  | .sub a b => (a.eval F ρ).bind fun x => (b.eval F ρ).map fun y => F.sub x y
+  | .mul a b => (a.eval F ρ).bind fun x => (b.eval F ρ).map fun y => F.mul x y
+  | .neg a => (a.eval F ρ).map F.neg
+  | .inv a => (a.eval F ρ).bind F.inv
+  | .pow a k => (a.eval F ρ).map fun x => F.pow x k
+  | .trace a => (a.eval F ρ).map F.trace
+
+/-- two records that agree on a closed set evaluate every term alike (value and error status),
+    and the value stays in the set -/
+theorem Expr.eval_agree {α : Type} {F F' : FOps α} {V : α → Prop} (hA : OpsAgree F F' V)
+    (hC : Closed F V) (ρ : Nat → α) (hρ : ∀ k, V (ρ k)) (e : Expr) :
+    e.eval F' ρ = e.eval F ρ ∧ ∀ v, e.eval F ρ = some v → V v := by
+  induction e with
+  | reg k => exact ⟨rfl, fun v h => by cases h; exact hρ k⟩
+  | zero => exact ⟨by simp only [Expr.eval, hA.zero], fun v h => by cases h; exact hC.zero⟩
+  | one => exact ⟨by simp only [Expr.eval, hA.one], fun v h => by cases h; exact hC.one⟩
+  | gen => exact ⟨by simp only [Expr.eval, hA.gen], fun v h => by cases h; exact hC.gen⟩
+  | add a b iha ihb =>
+    simp only [Expr.eval, iha.1, ihb.1]
+    cases ha : a.eval F ρ with
+    | none => simp
+    | some x =>
+      cases hb : b.eval F ρ with
+      | none => simp
+      | some y =>
+        have hx := iha.2 x ha; have hy := ihb.2 y hb
+        simp only [Option.bind_some, Option.map_some, hA.add x y hx hy, true_and]
+        intro v h; cases h; exact hC.add x y hx hy
+  | sub a b iha ihb =>
+    simp only [Expr.eval, iha.1, ihb.1]
+    cases ha : a.eval F ρ with
+    | none => simp
+    | some x =>
+      cases hb : b.eval F ρ with
+      | none => simp
+      | some y =>
+        have hx := iha.2 x ha; have hy := ihb.2 y hb
+        simp only [Option.bind_some, Option.map_some, hA.sub x y hx hy, true_and]
+        intro v h; cases h; exact hC.sub x y hx hy
+  | mul a b iha ihb =>
+    simp only [Expr.eval, iha.1, ihb.1]
+    cases ha : a.eval F ρ with
+    | none => simp
+    | some x =>
+      cases hb : b.eval F ρ with
+      | none => simp
+      | some y =>
+        have hx := iha.2 x ha; have hy := ihb.2 y hb
+        simp only [Option.bind_some, Option.map_some, hA.mul x y hx hy, true_and]
+        intro v h; cases h; exact hC.mul x y hx hy
+  | neg a iha =>
+    simp only [Expr.eval, iha.1]
+    cases ha : a.eval F ρ with
+    | none => simp
+    | some x =>
+      have hx := iha.2 x ha
+      simp only [Option.map_some, hA.neg x hx, true_and]
+      intro v h; cases h; exact hC.neg x hx
+  | inv a iha =>
+    simp only [Expr.eval, iha.1]
+    cases ha : a.eval F ρ with
+    | none => simp
+    | some x =>
+      have hx := iha.2 x ha
+      simp only [Option.bind_some, hA.inv x hx, true_and]
+      intro v h; exact hC.inv x v hx h
+  | pow a k iha =>
+    simp only [Expr.eval, iha.1]
+    cases ha : a.eval F ρ with
+    | none => simp
+    | some x =>
+      have hx := iha.2 x ha
+      simp only [Option.map_some, hA.pow x k hx, true_and]
+      intro v h; cases h; exact hC.pow x k hx
+  | trace a iha =>
+    simp only [Expr.eval, iha.1]
+    cases ha : a.eval F ρ with
+    | none => simp
+    | some x =>
+      have hx := iha.2 x ha
+      simp only [Option.map_some, hA.trace x hx, true_and]
+      intro v h; cases h; exact hC.trace x hx
+
 end Tables
 end Algobra
